@@ -189,6 +189,120 @@ def solo(text):
     return I.events(text)[1]
 
 
+def all_ids(o, out=None):
+    out = [] if out is None else out
+    if isinstance(o, dict):
+        for k, v in o.items():
+            if k == 'id':
+                out.append(v)
+            else:
+                all_ids(v, out)
+    elif isinstance(o, list):
+        for v in o:
+            all_ids(v, out)
+    return out
+
+
+def offset_of(evs, want):
+    """Offset between a document's envelopes and its solo envelopes, read off the first id (no access to the generator)."""
+    a, b = all_ids(evs), all_ids(want)
+    if not a or not b:
+        return 0
+    try:
+        return int(a[0]) - int(b[0])
+    except (TypeError, ValueError):
+        return 0
+
+
+class CountingIds(IdGenerator):
+    handed_out = 0
+
+    def get_next_id(self):
+        self.handed_out += 1
+        return super().get_next_id()
+
+
+def interleavings(n1, n2):
+    def rec(a, b, pre):
+        if a == 0 and b == 0:
+            yield list(pre)
+            return
+        if a:
+            pre.append(0)
+            yield from rec(a - 1, b, pre)
+            pre.pop()
+        if b:
+            pre.append(1)
+            yield from rec(a, b - 1, pre)
+            pre.pop()
+    yield from rec(n1, n2, [])
+
+
+@worker
+def job_generators(i):
+    """Two sources of one stream whose enum() generators are drawn alternately - every interleaving of the next() calls:
+    all ids of the stream stay pairwise distinct and each source yields the envelope kinds it yields alone."""
+    acc = Acc()
+    solos = [solo(t) for t in POOL]
+    sched = None
+    for j in range(len(POOL)):
+        n1, n2 = len(solos[i]) + 1, len(solos[j]) + 1
+        for sched in interleavings(n1, n2):
+            acc.n += 1
+            acc.validated += 1
+            acc.nontrivial += 1
+            ge = GherkinEvents(GherkinEvents.Options(print_source=True, print_ast=True, print_pickles=True))
+            gens = [ge.enum({'source': {'uri': 'a', 'data': POOL[i], 'mediaType': 'text/x.cucumber.gherkin+plain'}}),
+                    ge.enum({'source': {'uri': 'b', 'data': POOL[j], 'mediaType': 'text/x.cucumber.gherkin+plain'}})]
+            got = [[], []]
+            case = {'kind': 'generators', 'documents': [i, j], 'schedule': sched}
+            try:
+                for w in sched:
+                    try:
+                        got[w].append(next(gens[w]))
+                    except StopIteration:
+                        pass
+            except Exception as e:  # noqa: BLE001
+                acc.violation('stream-exception', case, '%s: %s' % (type(e).__name__, e))
+                continue
+            ids = all_ids(got[0]) + all_ids(got[1])
+            acc.states.add((i, j, len(set(ids))))
+            acc.trans.add((i, j, tuple(sched[:4])))
+            if len(ids) != len(set(ids)):
+                dup = sorted({x for x in ids if ids.count(x) > 1})[:5]
+                acc.violation('stream-id-reuse', case, 'ids handed out twice in one stream when two sources are drawn alternately: %s' % dup)
+                continue
+            kinds = [[next(iter(e)) for e in g] for g in got]
+            want = [[next(iter(e)) for e in solos[i]], [next(iter(e)) for e in solos[j]]]
+            if kinds != want:
+                acc.violation('stream-kinds', case, 'envelope kinds change when two sources are drawn alternately', observed=kinds, expected=want)
+    acc.sample({'documents': [POOL[i][:60], POOL[-1][:60]], 'schedule': sched})
+    return acc
+
+
+def threads_level(acc):
+    """One stream used from two threads one after the other (no concurrency): ids still come from one generator."""
+    import threading
+    for i in range(len(POOL)):
+        for j in range(len(POOL)):
+            ge = GherkinEvents(GherkinEvents.Options(print_source=False, print_ast=True, print_pickles=True))
+            a = I.events(POOL[i], ge=ge)[1]
+            box = []
+            t = threading.Thread(target=lambda: box.append(I.events(POOL[j], ge=ge)))
+            t.start()
+            t.join()
+            acc.n += 1
+            acc.validated += 1
+            if not box or box[0][0] != 'ok':
+                acc.violation('stream-exception', {'kind': 'threads', 'documents': [i, j]}, 'second document on another thread: %r' % (box[:1],))
+                continue
+            ids = all_ids(a) + all_ids(box[0][1])
+            if len(ids) != len(set(ids)):
+                acc.violation('stream-id-reuse', {'kind': 'threads', 'documents': [i, j]},
+                              'ids of one stream collide when its second document is handled on another thread (after the first finished)')
+
+
+
 @worker
 def job_histories(first, h):
     acc = Acc()
@@ -206,13 +320,13 @@ def job_histories(first, h):
               ge.parser.stop_at_first_error = stop
               seen = set()
               for i in hist:
-                  off = ge.id_generator._id_counter
                   r = I.events(POOL[i], ge=ge)
                   if r[0] != 'ok':
                       acc.violation('stream-exception', case, r[1])
                       break
                   evs = [e for e in r[1] if 'source' not in e]
                   want = [e for e in solos[i] if 'source' not in e]
+                  off = offset_of(evs, want)
                   if stop and want and 'parseError' in want[0]:
                       if not evs or any('parseError' not in e for e in evs):
                           acc.violation('history-ids', case, 'rejected document %d in stop-at-first-error mode does not yield parse errors only' % i)
@@ -234,12 +348,12 @@ def job_histories(first, h):
                   acc.states.add(('offset>0', off > 0, i))
                   acc.trans.add((i, off > 0, len(new) > 0))
             # one Parser + Compiler pair sharing a generator
-            ig = IdGenerator()
+            ig = CountingIds()
             p = Parser(AstBuilder(ig))
             c = Compiler(ig)
             seen = set()
             for i in hist:
-                off = ig._id_counter
+                off = ig.handed_out
                 try:
                     d = p.parse(I.StringScanner(POOL[i]))
                     d['uri'] = 'u'
@@ -265,6 +379,10 @@ def run(ctx):
     ns = 16
     for fam in ('no-rules', 'rules', 'examples-shapes', 'pairs'):
         ctx.level('compiler shapes:' + fam, [A.job_shapes.job(__name__, fam, s, ns, ctx.quick) for s in range(ns)])
+    ctx.level('two sources drawn alternately: all interleavings of next()', [job_generators.job(i) for i in range(len(POOL))])
+    acc = Acc()
+    threads_level(acc)
+    ctx.acc.merge(acc)
     h = ctx.pick(3, 4)
     ctx.level('histories h<=%d' % h, [job_histories.job(i, h) for i in range(len(POOL))])
 
@@ -279,9 +397,10 @@ def replay(case):
         hist = case['history']
         ge = GherkinEvents(GherkinEvents.Options(print_source=False, print_ast=True, print_pickles=True))
         for i in hist:
-            off = ge.id_generator._id_counter
             r = I.events(POOL[i], ge=ge)
-            if norm_ids([e for e in r[1] if 'source' not in e], off) != [e for e in solo(POOL[i]) if 'source' not in e]:
+            w = [e for e in solo(POOL[i]) if 'source' not in e]
+            off = offset_of([e for e in r[1] if 'source' not in e], w)
+            if norm_ids([e for e in r[1] if 'source' not in e], off) != w:
                 return ['document %d of the history: ids are not the fresh ids plus offset' % i]
         return []
     a = I.full(case['text'])
